@@ -349,3 +349,36 @@ Example shared_buffer_example :
   snd (h_trace h_init [HNew; HWrite (Some [65; 66]%N) 2; HEnd 0; HRead 0 true 2; HEnd 0; HNew; HRead 1 true 1]) =
   [HReader 0; HOk; HEndIs false; HBytes [65; 66]%N; HEndIs true; HReader 1; HBytes [65%N]].
 Proof. vm_compute. reflexivity. Qed.
+
+(* ======================== handing the writer's buffer off (move), reset, self-assignment *)
+
+(* a moved-from OwnedArray is empty (C11), so after the handoff the writer restarts at 0: the next
+   message is exactly the bytes written next, the handed-off message is what had been written *)
+Theorem handoff_restarts_writer : forall st bs,
+  len bs < 2 ^ 64 ->
+  let st1 := fst (x_step st XHandoff) in
+  h_buf (x_h st1) = [] /\ x_msgs st1 = x_msgs st ++ [h_buf (x_h st)] /\ h_curs (x_h st1) = h_curs (x_h st) /\
+  let st2 := fst (x_step st1 (XH (HWrite (Some bs) (len bs)))) in
+  h_buf (x_h st2) = bs /\ x_msgs st2 = x_msgs st1 /\ len (h_buf (x_h st2)) = wrap (0 + len bs).
+Proof. exact ProofsHist.handoff_restarts_writer. Qed.
+Print Assumptions handoff_restarts_writer.
+
+Theorem handoff_messages_stable : forall st op, exists tail, x_msgs (fst (x_step st op)) = x_msgs st ++ tail.
+Proof. exact ProofsHist.handoff_messages_stable. Qed.
+Print Assumptions handoff_messages_stable.
+
+(* a reader left over the writer's buffer sees the empty buffer: throws / end(), never out of bounds *)
+Theorem stale_reader_after_handoff : forall st k c mem size op,
+  op = XHandoff \/ op = XReset ->
+  nth_error (h_curs (x_h st)) k = Some c -> 0 <= c -> 0 <= size -> (0 < size \/ 0 < c) ->
+  let st1 := fst (x_step st op) in
+  snd (x_step st1 (XH (HRead k mem size))) = HThrow /\ snd (x_step st1 (XH (HEnd k))) = HEndIs true.
+Proof. exact ProofsHist.stale_reader_after_handoff. Qed.
+Print Assumptions stale_reader_after_handoff.
+
+(* message 1, handoff, message 2: two separate messages, no stale prefix *)
+Example handoff_example :
+  let st := fold_left (fun s o => fst (x_step s o))
+              [XH (HWrite (Some [65; 66]%N) 2); XHandoff; XH (HWrite (Some [67%N]) 1); XSelfAssign; XHandoff; XReset] x_init in
+  x_msgs st = [[65; 66]%N; [67%N]] /\ h_buf (x_h st) = [].
+Proof. vm_compute. split; reflexivity. Qed.
